@@ -592,7 +592,7 @@ func sessionMacCases() {
 
 func main() {
 	r = ev.Start("C13", "exploration")
-	r.Rule("for ES256, ES384, RS256, RS384, PS256, PS384: payload classes {empty, 1 byte, 32 bytes, nested CBOR struct, 4 KiB (thorough)} x external data {none, 16 bytes} x {attached, detached}; sign, encode, decode, verify with the real code and with an independent RFC 8152 verifier; then every single bit of signature, protected header, payload (<=64 bytes) and external data, 6 foreign keys, 12 signature lengths incl. zero-padded r/s, 20 other/unregistered/ill-typed algorithm ids, missing alg, alg only in the unprotected map, extra protected label, null payload; ECDSA leading-zero r/s witnesses by bounded search; Mac0 HMAC-256/384: every bit of tag, payload, external data and key and 4 tag lengths through the caller's recompute-and-compare (Mac0.Digest + compare, as kex.SessionCrypter does), and every bit of the Mac0 protected header through the real caller kex.SessionCrypter.Decrypt for the four encrypt-then-MAC suites. Payload bit flips that the decoder maps to the identical payload value are counted and not demanded to fail (value level). A case is one verification; distinct = distinct (alg,class,mutation).")
+	r.Rule("for ES256, ES384, RS256, RS384, PS256, PS384: payload classes {empty, 1 byte, 32 bytes, nested CBOR struct, 4 KiB (thorough)} x external data {none, 16 bytes} x {attached, detached}; sign, encode, decode, verify with the real code and with an independent RFC 8152 verifier; then every single bit of signature, protected header, payload (<=64 bytes) and external data, 6 foreign keys, 12 signature lengths incl. zero-padded r/s, 20 other/unregistered/ill-typed algorithm ids, missing alg, alg only in the unprotected map, extra protected label, null payload; ECDSA leading-zero r/s witnesses by bounded search; Mac0 HMAC-256/384: every bit of tag, payload, external data and key and 4 tag lengths through the caller's recompute-and-compare (Mac0.Digest + compare, as kex.SessionCrypter does), and every bit of the Mac0 protected header through the real caller kex.SessionCrypter.Decrypt for the four encrypt-then-MAC suites. Payload bit flips that the decoder maps to the identical payload value are counted and not demanded to fail (value level). A case is one verification; distinct = distinct (alg,class,mutation). Reused receivers: for every ordered pair of 8 Sign1 objects per algorithm (genuine ones with {alg}, {alg, extra label} + unprotected label, another payload; the same signatures under protected headers with the label removed / emptied / added; null payload) and of 3 Mac0 objects per MAC algorithm, the second is decoded into the variable that already holds the first: the verdict must be the reference's verdict for the second message alone.")
 	var wg sync.WaitGroup
 	for _, a := range algs() {
 		wg.Add(1)
@@ -615,6 +615,7 @@ func main() {
 					}
 				}
 			}
+			reusedSign1(a)
 			if a.n > 0 {
 				tries := 3000
 				if !r.Quick() {
@@ -625,7 +626,8 @@ func main() {
 			}
 		}()
 	}
-	wg.Add(2)
+	wg.Add(3)
+	go func() { defer wg.Done(); reusedMac0() }()
 	go func() { defer wg.Done(); macCases() }()
 	go func() { defer wg.Done(); sessionMacCases() }()
 	wg.Wait()
